@@ -217,9 +217,13 @@ NearMidnight(t) == t < 30 \/ t > DaySec - 30
 Crosses(t, d) == t + d < 30 \/ t + d > DaySec - 30
 \* an entry is not compared when the shift moves it across civil midnight (or it lies within 30 s of it),
 \* nor when it is defined by an interval from such an entry (Isha from Maghrib, Fajr / Imsaak from Shurooq)
+\* ... or when the reported time and the expected one lie on different sides of civil midnight: near the seam two
+\* occurrences of the event (yesterday evening's and this evening's) fall inside the civil date, a day-to-day drift
+\* (up to ~2 min) apart, and the library reports the one its day fraction wraps to
 SeamSkipped(p, d) ==
     \/ (Ev.a.t[p] >= 0 /\ (Crosses(Ev.a.t[p], d) \/ NearMidnight(Ev.a.t[p])))
     \/ (Ev.b.t[p] >= 0 /\ NearMidnight(Ev.b.t[p]))
+    \/ (Ev.a.t[p] >= 0 /\ Ev.b.t[p] >= 0 /\ AbsI(Ev.b.t[p] - (Ev.a.t[p] + d)) > DaySec \div 2)
 Skipped(p, d) ==
     \/ SeamSkipped(p, d)
     \/ (p = Isha /\ Ev.p.ii # 0 /\ SeamSkipped(Maghrib, d))
